@@ -32,7 +32,7 @@ theorem getElem?_xorBlockAliased (buf : Array UInt8) (ks : List UInt8) (p bs j :
       have h := ih (j := p + bs)
       have hn : ¬ (p ≤ p + bs ∧ p + bs < p + bs ∧ p + bs < buf.size) := by omega
       rw [if_neg hn] at h
-      simp only [Array.getD_eq_getD_getElem?, h]
+      rw [Array.getD_eq_getD_getElem?, Array.getD_eq_getD_getElem? (xs := buf), h]
     rw [Array.getElem?_setIfInBounds, ih, hs, hread]
     by_cases h1 : p + bs = j
     · subst h1
